@@ -88,7 +88,7 @@ def run_property(pid, tier, seed):
             extra.update(mod.post(tier, all_findings) or {})
         except Exception:
             all_findings.append(("post", _mk_finding(pid, "post", "internal", "-", "post hook error: " + traceback.format_exc()[-1200:])))
-    if fatal is None and tier == "thorough":
+    if fatal is None and tier == "thorough" and not os.environ.get("FEOXLINT_SKIP_MUTANTS"):   # (development aid: configs only)
         try:
             from . import mutants as M
             res = M.run([pid], verbose=False)
